@@ -98,6 +98,16 @@ theorem key_injective {μ : Str → Option M} (p p' : Tok) (ds ds' : List Tok) (
   obtain ⟨e1, e2⟩ := Lemmas.BundleL.key_injective .byKid p p' ds ds' hp hp' hd hd' h
   exact ⟨e1, e2, perKid_of_sorted ds ds' sd sd' e2⟩
 
+/-- **same_nonce_variants_have_distinct_keys.**  Two permission tokens with different text never share
+a key, whatever candidates they are presented with and however much else they have in common — a
+token, its attenuated variants and a copy with a corrupted tail all carry the same nonce, but each
+has its own text, hence its own cache entries: a result stored for one (`failures_not_cached`: under
+the key of the very query that was accepted) is never handed out for another -/
+theorem same_nonce_variants_have_distinct_keys (ko : KeyOrder) (p p' : Tok) (ds ds' : List Tok)
+    (hp : NoComma p.str) (hp' : NoComma p'.str) (hd : ∀ d ∈ ds, NoComma d.str) (hd' : ∀ d ∈ ds', NoComma d.str)
+    (hne : p.str ≠ p'.str) : keyOf ko p ds ≠ keyOf ko p' ds' :=
+  fun h => hne (Lemmas.BundleL.key_injective ko p p' ds ds' hp hp' hd hd' h).1
+
 /-- token text never contains the separator: parsed tokens, minted tokens -/
 theorem token_text_has_no_separator :
     (∀ hdr, ∀ t ∈ parseToks hdr, NoComma t.str) ∧ (∀ bytes, NoComma (macString bytes)) :=
@@ -281,6 +291,7 @@ end Macaroon.Props.C14
 #print axioms Macaroon.Props.C14.stable_sort_keeps_candidate_order
 #print axioms Macaroon.Props.C14.sorting_is_invisible
 #print axioms Macaroon.Props.C14.key_injective
+#print axioms Macaroon.Props.C14.same_nonce_variants_have_distinct_keys
 #print axioms Macaroon.Props.C14.token_text_has_no_separator
 #print axioms Macaroon.Props.C14.token_text_determines_macaroon
 #print axioms Macaroon.Props.C14.mint_synced_is_codec_roundtrip
